@@ -180,18 +180,18 @@ func setup() {
 	opt.TTL = ltoml.Duration(-time.Hour) // every unreferenced cache entry counts as expired (time independent)
 	st, err := kv.VerifNewStore("s", dir, opt)
 	if err != nil {
-		vevid.Fatal("new store: %v", err)
+		vevid.OpFailed("new store: %v", err)
 	}
 	fam, err := st.CreateFamily("f", kv.FamilyOption{Merger: "cat", CompactThreshold: 2})
 	if err != nil {
-		vevid.Fatal("create family: %v", err)
+		vevid.OpFailed("create family: %v", err)
 	}
 	w.store, w.fam = st, fam
 	if err := flushOne(fam, map[uint32]string{k1: "a", k2: "x"}); err != nil {
-		vevid.Fatal("flush: %v", err)
+		vevid.OpFailed("flush: %v", err)
 	}
 	if err := flushOne(fam, map[uint32]string{k1: "b"}); err != nil {
-		vevid.Fatal("flush: %v", err)
+		vevid.OpFailed("flush: %v", err)
 	}
 }
 
@@ -376,7 +376,7 @@ func tW() { // flush commit of a colliding key
 	}
 }
 
-func tC() { w.fam.Compact() }             // level-0 compaction (background goroutine = controlled thread)
+func tC() { w.fam.Compact() }               // level-0 compaction (background goroutine = controlled thread)
 func tG() { kv.VerifStoreCompact(w.store) } // periodic job: needCompact/compact + reader cache cleanup
 func tD() { kv.VerifFamilyDeleteObsoleteFiles(w.fam) }
 
